@@ -241,6 +241,13 @@ def sighash_raw(spk):
     return _Raw(spk)
 
 
+def parse_own(blob):
+    """the library's own honest PSBT must be a well-formed BIP174 PSBT"""
+    st_, pm = attempt(psbtmap.parse, blob)
+    require(st_ == "ok", "honest/psbt_is_not_bip174", f"{pm}")
+    return pm
+
+
 def describe(blob, hmap):
     def run():
         p = PSBT.parse(BytesIO(blob))
@@ -286,7 +293,7 @@ def check_honest(case, ctx):
     ctx.label(f"m={model.m},n={model.n}")
     ctx.label("with_change" if case["has_change"] else "sweep")
     ctx.nontrivial(case["has_change"] or model.n >= 2)
-    pm = psbtmap.parse(blob)
+    pm = parse_own(blob)
     st_, desc = describe(blob, hmap)
     require(st_ == "ok", "honest/describe_raises", f"{type(desc).__name__}: {desc}"[:300])
     check_summary(desc, pm, model, "honest")
@@ -308,7 +315,7 @@ def check_tamper(case, ctx):
     ctx.label("tamper:" + t)
     ctx.label("kind:" + kind)
     ctx.nontrivial()
-    pm = psbtmap.parse(blob)
+    pm = parse_own(blob)
     att = bip32.Node.master(case["attacker_seed"])
     att_secs = [ec.sec(att.derive([i]).K) for i in range(max(n, 1))]
     att_script = Model.multisig(m, att_secs)
